@@ -68,6 +68,40 @@ class ScriptedFailure(RuntimeError):
   pass
 
 
+# Objects handed to core are not all "ordinary": the property is about names
+# being registered, not about what kind of object a component, a callback or
+# a sink is.  Flavours of unusual (but legal) dunder behaviour:
+FLAVOURS = ("plain", "empty", "false", "eq-all", "eq-none")
+
+
+def _flavour_ns(fl):
+  """class namespace entries giving instances the unusual behaviour `fl`"""
+  if fl == "empty":          # a container-like object that is empty: falsy through __len__
+    return {"__len__": lambda self: 0}
+  if fl == "false":          # falsy through __bool__
+    return {"__bool__": lambda self: False}
+  if fl == "eq-all":         # equal to everything, unhashable
+    return {"__eq__": lambda self, other: True, "__ne__": lambda self, other: False,
+            "__hash__": None}
+  if fl == "eq-none":        # equal to nothing, not even itself; constant hash
+    return {"__eq__": lambda self, other: False, "__ne__": lambda self, other: True,
+            "__hash__": lambda self: 7}
+  return {}
+
+
+def flavoured(base, fl):
+  return type("%s_%s" % (base.__name__, fl.replace("-", "_")), (base,), _flavour_ns(fl))
+
+
+class CallableWaiter(object):
+  """A callback that is an object with __call__ (and no __name__)."""
+  def __init__(self, fn):
+    self.fn = fn
+
+  def __call__(self):
+    return self.fn()
+
+
 _clock = poxenv.clock
 _current = [None]
 
@@ -127,8 +161,9 @@ class Adapter(object):
     self.core = self._make_core()
     _current[0] = self
     self.name = {c: NAMES[c] for c in self.comps}
-    self.objs = {c: (SourceComponent if c in self.sources else PlainComponent)(c, self.name[c])
-                 for c in self.comps}
+    self.objs = {c: flavoured(SourceComponent if c in self.sources else PlainComponent,
+                              self._flavour(i))(c, self.name[c])
+                 for i, c in enumerate(self.comps)}
     self.log = []
     self.declared = set()
     self.sinks = {}
@@ -151,6 +186,10 @@ class Adapter(object):
 
   def _make_core(self):
     return fresh_core()
+
+  def _flavour(self, i):
+    """which unusual behaviour the i-th component / waiter object has"""
+    return FLAVOURS[(self.style + self.style // 5 + i) % len(FLAVOURS)]
 
   # ---- observation helpers
   def snapshot(self):
@@ -259,8 +298,13 @@ class Adapter(object):
     if (self.style // 4) % 2:
       names.reverse()
     comps = self._container(names, sorted(self.kind).index(w))
-    v = (self.style + sorted(self.kind).index(w)) % 3
-    if v == 0:
+    wi = sorted(self.kind).index(w)
+    v = (self.style + wi) % 4
+    if v == 3:
+      fl = self._flavour(wi + 2)
+      self.last_callback = "object-" + fl
+      self.core.call_when_ready(flavoured(CallableWaiter, fl)(lambda: self._fired(w)), comps)
+    elif v == 0:
       self.last_callback = "method"
       self.core.call_when_ready(self._fired, comps, args=(w,))
     elif v == 1:
@@ -283,6 +327,7 @@ class Adapter(object):
       ad._fired(s)
     ns["_all_dependencies_met"] = met
     ns["_handle_Ev"] = lambda this, event: None      # no component: must be ignored
+    ns.update(_flavour_ns(self._flavour(sorted(self.kind).index(s) + 1)))
     return type("Sink_" + s, (object,), ns)()
 
   def _listen(self, s, expl):
